@@ -287,6 +287,10 @@ End DeepSem.
 Definition table_op (comm_of : nat -> bool) (o : dbop) : Prop :=
   (bcomm o = true -> comm_of (bidx o) = true) /\ (0 <= bprio o <= 99)%Z.
 
+(* an operator record built from its table entry: index of a binary operator, its priority and its flag *)
+Definition from_table (tb : optable) (o : dbop) : Prop :=
+  exists spec bs, nth_error tb (bidx o) = Some spec /\ obin spec = Some bs /\ bcomm o = comm bs /\ bprio o = prio bs.
+
 (* variables valued by position in an assignment *)
 Definition vlook {D} (C : carrier D) (vals : list D) : nat -> str -> D := fun i _ => nth i vals (dflt C).
 
